@@ -112,3 +112,9 @@ def known_match(entry, op, inp, obs):
 def streams(tier, rng):
     n = 1500 if tier == 'quick' else 20000
     yield {'name': 'tables-through-real-files', 'op': 'C18', 'cases': (case(rng) for _ in range(n))}
+
+
+def normalize(op, inp):
+    """recompute the rendered text of a (shrunk) table"""
+    narr, header, rows, has_header, _text = inp
+    return [narr, header, rows, has_header, render(narr, header, rows)]
